@@ -189,6 +189,30 @@ func (c *ConnScript) defaults() {
 	if c.Cut == 0 && c.CutKind == cutNone {
 		c.Cut = -1
 	}
+	// A step cut into very many segments must not take longer to send than the
+	// server's read timeout allows (that would be a fault, and the strata that
+	// want it inject it explicitly): drop the per-segment gaps in that case.
+	for i := range c.Steps {
+		st := &c.Steps[i]
+		if len(st.Gaps) == 0 || len(st.Segs) == 0 {
+			continue
+		}
+		minSeg := 1 << 30
+		for _, sz := range st.Segs {
+			if sz > 0 && sz < minSeg {
+				minSeg = sz
+			}
+		}
+		var maxGap Dur
+		for _, g := range st.Gaps {
+			if g > maxGap {
+				maxGap = g
+			}
+		}
+		if Dur(len(st.Data)/minSeg+1)*maxGap > 3*time.Minute {
+			st.Gaps = nil
+		}
+	}
 }
 
 // classOf maps an octet to its DATA-relevant class, for fingerprints.
